@@ -81,11 +81,12 @@ struct Injection {
     needs: Extensions,
     what: &'static str,
     stage: Stage,
-    /// the label may point at the related earlier construct instead (none here)
     whole_file: bool,
+    /// must be placed at the top of the Cooklang part (needs to know what precedes it)
+    at_top: bool,
 }
 
-const N_CONSTRUCTS: u8 = 30;
+const N_CONSTRUCTS: u8 = 31;
 
 fn injection(kind: u8, variant: u8) -> Injection {
     let v = variant as usize;
@@ -94,6 +95,7 @@ fn injection(kind: u8, variant: u8) -> Injection {
         0 => (vec![], ["@{}", "#{}", "@{2%kg}", "@ {}"][v % 4].into(), e, "empty name", Stage::Parse),
         1 => (vec![], ["@zzq{1/0}", "@zzq{2 1/0%kg}", "#zzq{1/0}", "~zzq{1/0%min}", "@zzq{ 3 / 0 }"][v % 5].into(), e, "zero denominator", Stage::Parse),
         2 => (vec![], ["@zzq{%kg}", "@zzq{ %kg}", "@zzq{ % kg }"][v % 3].into(), e, "empty value", Stage::Parse),
+        3 if v % 5 >= 3 => (vec![], ["#zzq{2 large}", "#zzq pot{1/2 kg}"][v % 2].into(), Extensions::ADVANCED_UNITS, "unit on cookware", Stage::Parse),
         3 => (vec![], ["#zzq{1%kg}", "#zzq pot{2 % big ones}", "#zzq{a few%kg}"][v % 3].into(), e, "unit on cookware", Stage::Parse),
         4 => (vec![], ["~zzq{5}", "~{5}", "~zzq{1/2}", "~{ 10 }"][v % 4].into(), e, "timer without unit", Stage::Parse),
         5 => (vec![], ["~zzq{}", "~zzq"][v % 2].into(), Extensions::TIMER_REQUIRES_TIME, "timer without duration", Stage::Parse),
@@ -126,7 +128,15 @@ fn injection(kind: u8, variant: u8) -> Injection {
         26 => (vec![], ["~zzq{a while%min}", "~{some%h}"][v % 2].into(), Extensions::ADVANCED_UNITS, "text timer value", Stage::Analysis),
         27 => (vec![], ["@&(~=1)zzq{}", "@&(x)zzq{}", "@&()zzq{}", "@&(-1)zzq{}"][v % 4].into(), Extensions::INTERMEDIATE_PREPARATIONS, "malformed intermediate reference", Stage::Parse),
         28 => (vec![], ["@zzq{4294967296/2}", "@zzq{1 99999999999/2%kg}"][v % 2].into(), e, "integer overflow in a fraction", Stage::Parse),
-        _ => (vec![], String::new(), e, "malformed front matter", Stage::Analysis),
+        29 => (vec![], String::new(), e, "malformed front matter", Stage::Analysis),
+        _ => (
+            // no step precedes it in its section, only text paragraphs
+            [vec!["> a paragraph, not a step"], vec!["> one", "> two"], vec!["> one", "> two", "> three"]][v % 3].clone(),
+            ["@&(~1)zzq{}", "@&(~2)zzq{}", "@&(1)zzq{}"][v / 3 % 3].into(),
+            Extensions::INTERMEDIATE_PREPARATIONS,
+            "intermediate reference out of range",
+            Stage::Analysis,
+        ),
     };
     Injection {
         prelude: prelude.into_iter().map(String::from).collect(),
@@ -135,6 +145,7 @@ fn injection(kind: u8, variant: u8) -> Injection {
         what,
         stage,
         whole_file: kind % N_CONSTRUCTS == 29,
+        at_top: kind % N_CONSTRUCTS == 30,
     }
 }
 
@@ -149,6 +160,7 @@ fn check_inject(c: &InjectCase, st: &mut Stats) -> Verdict {
     let mut m = build(&raw, true);
     if inj.whole_file {
         m.front = None;
+        m.blocks.retain(|b| !matches!(b, BlockM::StepLine(_)));
     }
     let (base, _) = print_recipe(&m, &raw.tape);
     let base = base.replace("\r\n", "\n");
@@ -183,7 +195,7 @@ fn check_inject(c: &InjectCase, st: &mut Stats) -> Verdict {
             }
         }
         // a block comment spanning lines never contains an empty line (see print.rs), so these are block starts
-        let at = points[(c.pos as usize * points.len()) >> 16];
+        let at = if inj.at_top { body_start } else { points[(c.pos as usize * points.len()) >> 16] };
         let mut ins = String::new();
         for l in &inj.prelude {
             ins.push_str(l);
